@@ -24,8 +24,8 @@ CLAIMED = {
    text="Theorems for all node sequences: LabelTarget succeeds iff labels are unique and none is trailing, binds each label to the first following instruction; successors are exactly fall-through (unless RET/JMP) plus branch target; predecessors are the inverse; the build fails iff duplicate/trailing label, non-label branch target or undefined label. Real LabelTarget+CFG compared on thousands of generated node sequences (graph as index sets, error class) and judged by an acceptor.",
    note=TB + "Branch/terminal flags are taken from the instruction (tied to the table by C06). 'Return' is the near RET."),
  "C10": dict(cat="proof", tech="Lean 4 proofs about the clean-up models + exact correspondence + CFG-contraction acceptor",
-   text="prune_selfmov_ok: every instruction the self-move pass deletes is a plain general-purpose self-move whose execution leaves any register file unchanged (MOVL and vector MOVQ proved to have an effect and proved not pruned); label pruning keeps all instructions, all referenced labels and their bindings; a deleted jump targets the very next instruction. Pass order and opcode list regenerated from source. The three real passes are compared exactly with the models and judged by a semantic acceptor (sublist, only removable instructions deleted, same successors after contraction).",
-   note=TB + "execMov semantics hand-written from the SDM; full stuttering simulation for jump removal not proved (lemma + per-run acceptor)."),
+   text="prune_selfmov_ok: every instruction the self-move pass deletes is a plain general-purpose self-move whose execution leaves any register file unchanged (MOVL and vector MOVQ proved to have an effect and proved not pruned); label pruning keeps all instructions, all referenced labels and their bindings and is a lock-step simulation of instruction steps (pruneLabels_step); jump removal is a lock-step simulation for all executions under any instruction semantics in which an unconditional jump changes no state (pruneJumps_run). Pass order and opcode list regenerated from source. The three real passes are compared exactly with the models and judged by a semantic acceptor (sublist, only removable instructions deleted, same successors after contraction).",
+   note=TB + "execMov semantics hand-written from the SDM; self-move removal proved per instruction, not as a whole-program stuttering simulation."),
  "C14": dict(cat="proof", tech="Lean 4 proof (all formulas x all assignments) + exact correspondence + toolchain oracle",
    text="tags_equiv: for every valid, printable constraint set and every assignment the toolchain reading of the printed lines equals avo's Evaluate; tags_roundtrip; tags_invalid. Real Validate/Evaluate/GoString/Format/ParseConstraint compared exactly with the model on generated formulas x all assignments; the real go/build/constraint and go/build.MatchFile evaluate avo's printed header in accept- requests.",
    note=TB + "The //go:build expression parser is a measured assumption; tag character table measured from the installed unicode tables. Findings F8c/F8d (size limits of go/format and go/build/constraint) are listed in known_findings.json."),
